@@ -45,6 +45,20 @@ func Profile(name string, seed int64, tier string) HistOpts {
 		o.Weights = w
 		o.ByzPct = 5
 		o.AbsentPct = 6
+	case "begin": // BeginBlock: staking traffic after the initial grace period, long absences, evidence (also duplicated)
+		w := DefaultWeights()
+		for _, t := range []tx.TxType{tx.TypeDelegate, tx.TypeUnbond, tx.TypeMoveStake, tx.TypeSetCandidateOnline, tx.TypeSetCandidateOffline, tx.TypeLock, tx.TypeLockStake} {
+			w[t] = 80
+		}
+		o.Weights = w
+		o.Gen = GenOpts{Candidates: 9, ValidatorN: 9}
+		o.ByzPct = 15
+		o.AbsentPct = 12
+		o.DupByzPct = 40
+		o.CustomGas = 10
+		o.Malformed = 2
+		o.CheckTx = false
+		o.Warmup = 112 // the grace period of the start height ends after block 120: the generated blocks straddle its end
 	case "governance": // many votes for near heights while the validator set keeps changing
 		w := DefaultWeights()
 		for _, t := range []tx.TxType{tx.TypeSetHaltBlock, tx.TypeVoteUpdate, tx.TypeVoteCommission} {
